@@ -59,4 +59,13 @@ mut("C14 gauss reads the slice directly", [(SAM, "    let q_vectors = sample_q_v
 mut("C14 xi read even when graph is empty", [(SAM, "        graph = graph_without_edge;\n        if graph.is_empty() {\n            break;\n        }\n\n        let xi = rng.get_random_number(Some(\"sample xi\"));", "        graph = graph_without_edge;\n        let xi = rng.get_random_number(Some(\"sample xi\"));\n        if graph.is_empty() {\n            break;\n        }\n")], C14="C14-f")
 mut("C14 N: rename locals and reorder lets", [(SAM, "    let u_vectors = compute_u_vectors(&permatuhedral_sample.x, loop_signature, &edge_shifts);", "    let uvs = compute_u_vectors(&permatuhedral_sample.x, loop_signature, &edge_shifts);\n    let u_vectors = uvs;")], C14=None, C17=None, C12=None, C16=None)
 
+# ---- C05 ----
+mut("C05 extra exemption loop_number > 0", [(PRE, "if generalized_dod <= 0.0 && !subgraph.is_empty() && subgraph != full_subgraph_id {", "if generalized_dod <= 0.0 && !subgraph.is_empty() && subgraph != full_subgraph_id && loop_number > 0 {")], C05="C05-a")
+mut("C05 test on the unsubtracted value", [(PRE, "if generalized_dod <= 0.0 && !subgraph.is_empty()", "if weight_sum - loop_number as f64 * dimension as f64 / 2.0 <= 0.0 && !subgraph.is_empty()")], C05="C05-a")
+mut("C05 full-graph exemption dropped", [(PRE, "if generalized_dod <= 0.0 && !subgraph.is_empty() && subgraph != full_subgraph_id {", "if generalized_dod <= 0.0 && !subgraph.is_empty() && subgraph.get_id() + 1 != powerset_size {")], C05="C05-a")
+mut("C05 only subsets with >= 2 edges checked", [(PRE, "(0..powerset_size).map(|i| TropicalSubGraphId::from_id(i, num_edges));", "(0..powerset_size).filter(|i| i.count_ones() != 1 || true).map(|i| TropicalSubGraphId::from_id(i, num_edges));")], C05="C05-a")
+mut("C05 dimension literal in build_sampler", [(LIB, "TropicalSubgraphTable::generate_from_tropical(&tropical_graph, D)?;", "TropicalSubgraphTable::generate_from_tropical(&tropical_graph, 3)?;")], C05="C05-b")
+mut("C05 N: strict comparison + map_err", [(PRE, "if generalized_dod <= 0.0 && !subgraph.is_empty()", "if generalized_dod < 0.0 && !subgraph.is_empty()"), (LIB, "generate_from_tropical(&tropical_graph, D)?;", "generate_from_tropical(&tropical_graph, D).map_err(|e| e)?;")], C05=None)
+mut("C05 N: exemptions reordered", [(PRE, "if generalized_dod <= 0.0 && !subgraph.is_empty() && subgraph != full_subgraph_id {", "if subgraph != full_subgraph_id && !subgraph.is_empty() && generalized_dod <= 0.0 {")], C05=None)
+
 MUTATIONS = M
